@@ -284,7 +284,7 @@ Definition prop2 (c : case2) : bool :=
     forallb (fun x => outcome_eqb (o2_out (snd x)) (o2_fresh (snd x))) steps && jk_hits_from w [] steps
   | HC _ cfg steps =>
     forallb (fun x => outcome_eqb (o2_out (snd x)) (o2_fresh (snd x))) steps &&
-    hc_hits_from (hc_stores false cfg && negb (hc_is_post cfg)) [] steps
+    hc_hits_from (hc_stores true cfg) [] steps   (* what may soundly be reused: GET, no Vary *)
   | CC _ steps => forallb (fun x => outcome_eqb (o2_out (snd x)) (o2_fresh (snd x))) steps && cc_hits_from [] steps
   | JF _ _ _ steps => forallb (fun o => outcome_eqb (o2_out o) (o2_fresh o)) (exec_obs steps) && jf_hits_from [] steps
   end.
